@@ -32,7 +32,7 @@ CHECKS = {
     "C06": (
         "fault_enumeration",
         "failpoint enumeration over every user-callback invocation of every generated program, with an exception-class monitor, weakref liveness sentinels, a reflection-based container census, follow-up renders and a steady-state growth monitor",
-        "600 (quick) / 6000 (thorough) generated programs; for each, a clean run counts the user-code invocations (get_context_data, inject, on_render_before/after, slot functions, harness filter and tag) and then EVERY invocation index is made to raise (exception kind rotating over ValueError, KeyError(7), OSError(2,'x'), a multi-line custom error; all four per index in the thorough tier). After each failed render: the surfaced exception must be of the injected class and carry the failing component's path, sentinels given to the render (context value, kwarg, slot functions, the Context) must be dead after gc, the census of all module-level containers of django_components.* must equal the warm baseline, the caller's Context must have its layers back, a later clean render must equal the baseline; a steady-state run of 60 / 300 alternating clean and failing renders must not grow the census or the gc object count (> 0.2 objects per repetition).",
+        "600 (quick) / 6000 (thorough) generated programs; for each, a clean run counts the user-code invocations (get_context_data, inject, on_render_before/after, slot functions, harness filter and tag) and then EVERY invocation index is made to raise (exception kind rotating over ValueError, KeyError(7), OSError(2,'x'), a multi-line custom error; all four per index in the thorough tier). After each failed render: the surfaced exception must be of the injected class and carry the failing component's path, sentinels given to the render (context value, kwarg, slot functions, the Context) must be dead after gc, the census of all module-level containers of django_components.* must equal the warm baseline, the caller's Context must have its layers back, a later clean render must equal the baseline, and ten canary pages (hard compositions from the skeleton catalogue, verified against the reference interpreter at worker start) must still render as at the start after every program's fault sweep; a steady-state run of 60 / 300 alternating clean and failing renders must not grow the census or the gc object count (> 0.2 objects per repetition).",
         "Exhaustive in the callback index per program, sampled in programs; unbounded repetition is out of reach - growth is judged over K repetitions.",
         "DESIGN.md §2 C06",
     ),
@@ -46,14 +46,14 @@ CHECKS = {
     "C19": (
         "exploration",
         "history monitor: every endpoint URL announced by a render is fetched with django.test.Client right after that render, across histories with cache clears and class re-use, under two cache backends; request-path/method fuzz",
-        "2k (quick) / 40k (thorough) histories of 3-8 document/fragment renders with media-cache clears in between, under the default LocMem cache and a named Django cache: each announced component URL must answer 200 with exactly that class's js/css and the matching content type, and the set of served codes must equal the rendered classes' codes; 3k / 100k fuzzed paths (unknown hashes, kinds, input hashes, dots/colons, all HTTP methods) must give 404/405, never 5xx or component code.",
+        "2k (quick) / 40k (thorough) histories of 3-8 document/fragment renders (classes with single inheritance, re-used across steps) with media-cache clears in between, under the default LocMem cache and a named Django cache: each announced component URL must answer 200 with exactly that class's js/css and the matching content type, and the set of served codes must equal the rendered classes' codes; 3k / 100k fuzzed paths (unknown hashes, kinds, input hashes, dots/colons, all HTTP methods) must give 404/405, never 5xx or component code.",
         "Eviction between a render and the fetch of its URLs is out of the quantifier.",
         "DESIGN.md §2 C19",
     ),
     "C14": (
         "exploration",
         "reference-interpreter monitor on parsed final HTML: per element occurrence the set of data-djc-id markers vs the instances for which the element is top-level output; id echo links model instances to real ids; deep root chains",
-        "9k (quick) / 100k (thorough) E1 programs built from uniquely named elements (0..n root elements, text-only roots, nested elements, components as roots, components in loops/slots/fills) are rendered in both modes; the final HTML is parsed and every element's marker set must equal the interpreter's instance set, with echoed Component.id == marker id and all ids distinct; root chains of depth 50-300 (quick) / 500-2000 (thorough) must render without recursion error with the leaf roots carrying every id of the chain.",
+        "9k (quick) / 100k (thorough) E1 programs built from uniquely named elements (0..n root elements, text-only roots, nested elements, components as roots, components in loops/slots/fills) are rendered in both modes; the final HTML is parsed and every element's marker set must equal the interpreter's instance set, with echoed Component.id == marker id and all ids distinct; root chains of depth 50-300 (quick) / 500-2000 (thorough) must render without recursion error with the leaf roots carrying every id of the chain. A markup shard (2k / 60k components, decided by construction) puts ordinary HTML at the root - void elements, comments, nested elements, child components, inline <script> / <style> whose text contains '<', '>' or end-tag look-alikes: every top-level start tag must carry the instance's id (children's roots both), nested elements none. One listed finding (the third-party HTML parser reads script / style text as markup) is attributed by a mechanism-keyed classifier with stored witnesses.",
         "html.parser is the trusted reader; ids of dynamic-component wrappers are not echoed and are solved for (one consistent, distinct, otherwise unused id per wrapper on exactly the roots of its target); classes may call OtherClass.render() inside get_context_data() (nested root renders).",
         "DESIGN.md §2 C14",
     ),
@@ -95,14 +95,14 @@ CHECKS = {
     "C13": (
         "exploration",
         "round-trip monitor (rendered attributes parsed back with html.parser vs a reference merge), exactly-once escape-level counter for slot content, parsed-element monitor for the js/css end-tag guard",
-        "120k (quick) / 1.5M (thorough) html_attrs invocations over colliding attribute names and hostile values, passed as positional/keyword dicts, attrs:k= / defaults:k= aggregation, ...spreads, literals and repeated keywords, are rendered into <x-probe ...> and parsed back: the (name, value) multiset must equal the reference merge and nothing may break out of the tag; slot content in 6 forms x escape flag x 3 nesting shapes must come out escaped exactly once (or not at all when safe / flag off); component js/css with end-tag look-alikes in any case must be refused or else parse back intact.",
+        "120k (quick) / 1.5M (thorough) html_attrs invocations over colliding attribute names and hostile values, passed as positional/keyword dicts, attrs:k= / defaults:k= aggregation, ...spreads, literals and repeated keywords, are rendered into <x-probe ...> and parsed back: the (name, value) multiset must equal the reference merge and nothing may break out of the tag; slot content in 6 forms x escape flag x 3 nesting shapes - Slot instances also after the SAME object was handed to earlier renders with the opposite flag - must come out escaped exactly once (or not at all when safe / flag off); component js/css with end-tag look-alikes in any case must be refused or else parse back intact.",
         "html.parser is the trusted HTML reader; names limited to valid lower-case attribute names; bool/None never meet another value for the same name.",
         "DESIGN.md §2 C13",
     ),
     "C02": (
         "exploration",
         "reference-model + metamorphic monitor: grammar-generated argument ASTs, leaves evaluated by stock Django, containers/spreads by Python; many layouts x two real receivers compiled and rendered through real templates",
-        "12k (quick) / 300k (thorough) argument-list ASTs (nested list/dict literals, */**/... spreads, filter chains with arguments, translation strings, dynamic strings with {{ }}/{% %}/{# #}, aggregate and special-character keys, flags) are written out in 3-5 layouts each (whitespace, newlines, trailing commas, quote style with re-escaping, self-closing vs end tag) and rendered through a probe BaseNode and a probe Component under 1-3 contexts; the received (args, kwargs, flags) must equal the reference value for every layout; the documented-invalid spread combinations must raise TemplateSyntaxError.",
+        "12k (quick) / 300k (thorough) argument-list ASTs (nested list/dict literals, */**/... spreads, filter chains with arguments, translation strings, dynamic strings with {{ }}/{% %}/{# #}, aggregate and special-character keys, flags) are written out in 3-5 layouts each (whitespace, newlines, trailing commas, quote style with re-escaping, self-closing vs end tag) and rendered through a probe BaseNode and a probe Component under 1-3 contexts (every other compiled template is first rendered with a decoy context: a node renders many times and each time denotes the values of that context); the received (args, kwargs, flags) must equal the reference value for every layout; the documented-invalid spread combinations must raise TemplateSyntaxError.",
         "Trusts stock Django's FilterExpression/Template for leaf values and the E4 generator's notion of 'documented grammar' (DESIGN.md §4 lists what is not generated).",
         "DESIGN.md §2 C02, §1 E4",
     ),
